@@ -1,7 +1,8 @@
 (* Props/C10.v — Loading a file into the writer AST and saving it loses nothing.
    Only the property theorems, each closed by [exact], with Print Assumptions.
    Model: Write/Loader.v (hclwrite/parser.go, native_node_sorter.go, accessors of
-   ast_*.go); proofs: Write/LoaderProofs.v; formatter: Write/Format.v (C09).
+   ast_*.go, after the fixes d13351c / 1b2807b / 984f1c6); proofs:
+   Write/LoaderProofs.v; formatter: Write/Format.v (C09).
 
    Reading guide. [toks] are Go's tokens with byte ranges, [f] is Go's native
    AST reduced to the ranges parser.go reads, [load toks f] is the tree
@@ -10,11 +11,12 @@
    native parse guarantees: token starts strictly increasing; ranges nested and
    ordered; name/type ranges cover one token; an item is followed by comments
    and a newline/EOF (or the end of its one-line block); an attribute ends with
-   its expression; nothing stands between a block's type and its first label;
-   every traversal step covers the tokens of its syntax; every index key is a
-   string or a number. The last two clauses are NOT guaranteed by the parser:
-   see C10_load_flatten_refuted and the harness finding
-   "comment-before-first-label-dropped". *)
+   its expression; every traversal step covers the tokens of its syntax (an
+   identifier; a dot and a number; brackets, with a number token inside for a
+   number key). Index keys may be of any literal kind (string, number, bool,
+   null); anything may stand between a block's type and its first label.
+   The correspondence run checks on every error-free case that ranges_wf holds
+   exactly when the real loader lost nothing. *)
 From HclV Require Import Base.Prelude Write.Format Write.Loader Write.LoaderProofs.
 
 (* Every way the loader cuts a token slice gives the slice back: nothing is
@@ -31,54 +33,40 @@ Theorem C10_partition_conserves :
 Proof. exact partition_conserves. Qed.
 Print Assumptions C10_partition_conserves.
 
-(* On well-formed ranges loading reaches no panic and the unmodified tree
-   flattens to exactly the source's token sequence. *)
+(* On well-formed ranges — with index keys of ANY literal kind — loading
+   reaches no panic and the unmodified tree flattens to exactly the source's
+   token sequence. *)
 Theorem C10_load_flatten :
   forall toks f, ranges_wf toks f = true ->
     exists tree, load toks f = Ok tree /\ build_tokens tree = tokens toks.
 Proof. exact load_flatten. Qed.
 Print Assumptions C10_load_flatten.
 
-(* The hypothesis on index key kinds cannot be dropped: for the tokens and
-   ranges Go produces for  a = foo[true]  every other clause of ranges_wf
-   holds, loading succeeds, and the tree has 7 of the 8 tokens (the key is
-   gone). parseTraversalStep has no case for bool/null keys. *)
-Theorem C10_load_flatten_refuted :
-  exists toks f tree,
-    ranges_wf_anykey toks f = true /\ ranges_wf toks f = false /\
-    load toks f = Ok tree /\ build_tokens tree <> tokens toks /\
-    length (build_tokens tree) = 7%nat /\ length toks = 8%nat.
-Proof. exact load_flatten_refuted. Qed.
-Print Assumptions C10_load_flatten_refuted.
-
-(* What Attributes()/Blocks()/Type()/label nodes/Variables() expose, read off
-   the tree in order ([summ_of]), is what the ranges-AST says ([ast_summ]:
-   the bytes under NameRange/TypeRange, one label node holding exactly the
-   tokens under each LabelRange, one traversal per native variable with one
-   step per native step holding exactly the tokens under the step's range);
-   and Labels() returns the source's label texts for every block whose labels
-   are identifiers, "" or single-literal strings. *)
-Theorem C10_accessors_complete_partial :
+(* The tree read in order ([summ_of]) is the ranges-AST ([ast_summ]): per
+   attribute the bytes under NameRange and one traversal per native variable
+   with one step per native step holding exactly the tokens under the step's
+   range; per block the bytes under TypeRange, one label node holding exactly
+   the tokens under each LabelRange, and the same for its body. *)
+Theorem C10_accessors_tree :
   forall toks f tree, ranges_wf toks f = true -> load toks f = Ok tree ->
-    summ_of tree = map (ast_summ toks) (f_items (sort_file f))
-    /\ (forall rs, forallb (fun r => label_simple (tokens (sel_r toks r))) rs = true ->
-          labels_api (map (fun r => label_node (sel_r toks r)) rs)
-          = map (fun r => label_source (tokens (sel_r toks r))) rs).
-Proof. exact accessors_complete_partial. Qed.
-Print Assumptions C10_accessors_complete_partial.
+    summ_of tree = map (ast_summ toks) (f_items (sort_file f)).
+Proof. exact accessors_summ. Qed.
+Print Assumptions C10_accessors_tree.
 
-(* Without the side condition on labels the statement is false: for
-   b "a$b" {}  (the label lexes into three QuotedLit tokens) the tree is
-   well-formed and loses no token, but Labels() is empty while the source has
-   the label a$b. *)
-Theorem C10_accessors_labels_refuted :
-  exists toks f tree,
-    ranges_wf toks f = true /\ load toks f = Ok tree /\
-    build_tokens tree = tokens toks /\
-    exists t ls b, In (SumBlock t ls b) (summ_of tree) /\
-      labels_api ls = [] /\ map (fun n => label_source (build_tokens n)) ls = [[97; 36; 98]].
-Proof. exact accessors_labels_refuted. Qed.
-Print Assumptions C10_accessors_labels_refuted.
+(* What the accessors return — Attributes() names, Blocks(), Type(), Labels(),
+   Variables() — equals what the native AST says, at every depth, for labels
+   of any number of literal tokens ("a$b" lexes into three). [file_labels_ok]:
+   every label is an identifier or OQuote QuotedLit* CQuote, which an
+   error-free parse guarantees (checked on every case of the correspondence
+   run). Label TEXT is the raw literal bytes on both sides: the unescaping by
+   hclsyntax.ParseStringLiteralToken (backslash escapes, $${, %%{) is not
+   modelled. *)
+Theorem C10_accessors_complete :
+  forall toks f tree,
+    ranges_wf toks f = true -> file_labels_ok toks f = true -> load toks f = Ok tree ->
+    map summ_api (summ_of tree) = map (ast_api toks) (f_items (sort_file f)).
+Proof. exact accessors_complete. Qed.
+Print Assumptions C10_accessors_complete.
 
 (* File.Bytes() of the unmodified tree is the formatter applied to the source's
    tokens, i.e. hclwrite.Format(src) (format/write: Write/Format.v, C09). *)
@@ -96,8 +84,21 @@ Proof. exact sort_items_sorts. Qed.
 Print Assumptions C10_sort_items_sorts.
 
 (* Non-vacuity: the ranges Go produces for
-     b "l" {\n  a = f.g[0] #c\n}\n
-   satisfy ranges_wf (block, label, nested attribute, three-step traversal,
-   line comment serving as the newline). *)
-Example C10_example : ranges_wf ex_toks ex_file = true.
+     b /*c*/ "a$b" {\n  a = f.g[true] #c\n}\n
+   satisfy ranges_wf and file_labels_ok (comment before the first label,
+   multi-literal label, nested attribute, three-step traversal with a bool
+   key, line comment serving as the newline). *)
+Example C10_example : ranges_wf ex_toks ex_file = true /\ file_labels_ok ex_toks ex_file = true.
 Proof. exact ex_wf. Qed.
+
+(* ... and on that instance the loader keeps all 21 tokens (the /*c*/ before the
+   label and the bool key included), Labels() reads the joined label a$b and
+   Variables() exposes f.g[true] step by step. *)
+Example C10_example_load :
+  exists tree, load ex_toks ex_file = Ok tree
+  /\ build_tokens tree = tokens ex_toks
+  /\ map summ_api (summ_of tree)
+     = [ABlock [98] [[97; 36; 98]]
+          [AAttr [97] [[ [mkTok 73 [102] 1 1]; [mkTok 46 [46] 1 0; mkTok 73 [103] 1 0];
+                         [mkTok 91 [91] 1 0; mkTok 73 [116;114;117;101] 4 0; mkTok 93 [93] 1 0] ]]]].
+Proof. exact ex_load. Qed.
